@@ -53,6 +53,9 @@ FIXED = [
     ("C07", "62b993e", "component argument binding errors were dropped"),
     ("C07", "ef8a81b", "two uses of one component shared one parsed program: `...{t:\"A\"})@slot one@end@end|...{t:\"B\"})@slot two@end@end` rendered `[A: two]|[B: two]`"),
     ("C05", "98ff919", "`}} b` rendered ` b` and `{{ 1 }}}}` rendered `1`: a closing-braces token was produced in text mode"),
+    ("C01", "29ddbf6", "`{{ !flag }}` with {\"flag\": true} failed with \"prefix operator '!' cannot be applied to 'BOOLEAN'\": evalBangOperatorExp compared by identity with the TRUE/FALSE/NIL singletons"),
+    ("C08", "d334c39", "`@dump(1;)@dump(2)` panicked (index out of range [54] with length 54): the token-name table had no entry for DUMP and an empty one for EACH"),
+    ("C09", "d334c39", "parser panic through token.String(DUMP) on the render path of the string API"),
     ("C13", "8e11d82", "reported path of a failing page changed after a string evaluation"),
 ]
 
